@@ -606,10 +606,23 @@ structure Result where
   jobOuts : List (Name × List Val) := []
   deriving Inhabited
 
+/-- Depth level of every node (`DiGraph.sorting`: roots first, then the nodes all of whose predecessors are sorted, …). -/
+def levels (nodes : List Node) : List (Name × Nat) :=
+  nodes.foldl (init := []) fun acc nd =>
+    let l := nd.lazyUps.foldl (init := 0) fun m (_, u) => max m ((assocGet acc u).getD 0 + 1)
+    acc ++ [(nd.name, l)]
+
+/-- The order in which the submitter starts the nodes: by level, construction order within a level
+    (`Submitter.get_runnable_tasks` walks `graph.sorted_nodes` and starts a node once all its predecessors are done).
+    Only the identity of the first failing node depends on it. -/
+def startOrder (nodes : List Node) : List Node :=
+  let lv := levels nodes
+  (List.range (nodes.length + 1)).flatMap fun l => nodes.filter fun nd => (assocGet lv nd.name).getD 0 == l
+
 def run (w : Wf) : M Result := do
   let sts ← constructPass [] w.nodes
   let sts ← graphPass sts w.nodes
-  let rs ← runNodes w.nodes sts [] w.nodes
+  let rs ← runNodes w.nodes sts [] (startOrder w.nodes)
   let outs ← w.outs.mapM fun o => do getValue (← rs.get o) none
   return { outs := outs, jobs := rs.map fun (n, r) => (n, r.outs.length), jobOuts := rs.map fun (n, r) => (n, r.outs) }
 
